@@ -302,6 +302,7 @@ func c19(c *Ctx) {
 	}
 
 	var inclRows []string
+	nInclBad := 0
 	inclNeeded := 0
 	for i := 0; i < nFiles; i++ {
 		f := ir.NewFile()
@@ -349,6 +350,39 @@ func c19(c *Ctx) {
 			inclNeeded++
 		}
 		inclRows = append(inclRows, fmt.Sprintf("(%s, %s, %s)", cList(incS), cNList(attrs), cList(outS)))
+		// the printed text, printed twice: each print carries an #include line per entry of the list the pass
+		// left, in that order, and textflag.h among them whenever a directive names a flag; printing does not
+		// change the file's list
+		{
+			wantIncl := append([]string(nil), f.Includes...)
+			for round := 1; round <= 2 && nInclBad < 5; round++ {
+				out, err := printer.NewGoAsm(cfg).Print(f)
+				if err != nil {
+					break
+				}
+				var got []string
+				usesMacro := false
+				for _, ln := range strings.Split(string(out), "\n") {
+					if strings.HasPrefix(ln, "#include \"") {
+						got = append(got, strings.TrimSuffix(strings.TrimPrefix(ln, "#include \""), "\""))
+					}
+					if fm := textFlagsRe.FindStringSubmatch(ln); fm != nil && strings.ContainsAny(fm[1], "ABCDEFGHIJKLMNOPQRSTUVWXYZ") {
+						usesMacro = true
+					}
+					if fm := globlFlagsRe.FindStringSubmatch(ln); fm != nil && strings.ContainsAny(fm[1], "ABCDEFGHIJKLMNOPQRSTUVWXYZ") {
+						usesMacro = true
+					}
+				}
+				hasTF := false
+				for _, g := range got {
+					hasTF = hasTF || g == "textflag.h"
+				}
+				if fmt.Sprint(got) != fmt.Sprint(wantIncl) || fmt.Sprint(f.Includes) != fmt.Sprint(wantIncl) || (usesMacro && !hasTF) {
+					nInclBad++
+					o.Plan.GoViolations = append(o.Plan.GoViolations, GoViolation{Key: "include:printed", Desc: fmt.Sprintf("includes=%q attrs=%v: print number %d of the file has the include lines %q (the pass left %q; the file's list is now %q; a directive names a flag: %v)", inc, attrs, round, got, wantIncl, f.Includes, usesMacro), Replay: map[string]any{"includes": inc, "attrs": attrs, "print": round, "text": string(out)}})
+				}
+			}
+		}
 		o.AddCase(Case{Key: "include-pass", Desc: fmt.Sprintf("includes=%q attrs=%v -> %q", inc, attrs, f.Includes), Input: map[string]any{"includes": inc, "attrs": attrs}, Nontrivial: len(attrs) > 0})
 	}
 	var b strings.Builder
